@@ -268,7 +268,7 @@ def monitor(ctx, st):
         if name == "flatten":
             # every digest of a packing list comes from the source history together with its hash date
             src = {}
-            for hr in observe.find_histories(w.expand(argv[1]))[:1]:
+            for hr in observe.find_histories(w.abs_of(argv[1], op.get("cwd")))[:1]:
                 for num, _, sm in observe.HistoryView(hr).generations:
                     for sr in sm["files"]:
                         for e in sr["entries"]:
